@@ -469,6 +469,19 @@ def r17_8(ctx):
             ok = plain(a) == plain(b)
             ctx.check(ok, "R17.8", f.where(st), "the bytes branch and the str branch of a line compute the same value once the decode is taken out (compressed and plain input are cut up alike)", key_of(f, f"decode-siblings:{plain(a)[:40]}|{plain(b)[:40]}"), bytes_branch=norm(a if da else b)[:80], str_branch=norm(b if da else a)[:80])
     ctx.require_count("R17.8", n, 2, "gaftools/", "sibling branches for bytes / str lines")
+    # the bytes of a compressed file are decoded with the codec a plain file is read with (UTF-8, Python's default for text
+    # files here): another codec gives other characters for the same bytes
+    for f in repo.all_funcs():
+        for c in walk_own(f.node):
+            if isinstance(c, ast.Call) and isinstance(c.func, ast.Attribute) and c.func.attr == "decode":
+                codec = c.args[0] if c.args else next((k.value for k in c.keywords if k.arg == "encoding"), None)
+                if codec is None:
+                    continue
+                cv = const_value(codec, None)
+                if not isinstance(cv, str):
+                    raise AnalysisError("R17.8", f.where(c), f"cannot read the codec of `{norm(c)[:50]}`")
+                if cv.lower().replace("-", "").replace("_", "") not in ("utf8", "u8", "utf"):
+                    ctx.violated("R17.8", f.where(c), f"`{norm(c)[:60]}` decodes the bytes of a compressed file as {cv}, while the plain file is read as UTF-8 text: a read name or tag value with a non-ASCII character comes out differently for the compressed copy of the same file", key_of(f, f"decode-codec:{cv}"))
 
 
 def r17_7(ctx):
